@@ -172,7 +172,9 @@ type phoutCase struct {
 	LateRun  bool  `json:"run_started_after_first_reports"`
 	Pad      int   `json:"pad_bytes,omitempty"`   // boundary sweeps: every tag is padded to this length
 	GapMs    int   `json:"idle_gap_ms,omitempty"` // every goroutine pauses this long after its first third of reports
-	Seed     int64 `json:"seed"`
+	// FlushTime: phout's flush-time option as written in the config ("" = left out)
+	FlushTime string `json:"flush_time,omitempty"`
+	Seed      int64  `json:"seed"`
 }
 
 func cancelDelay(us int) {
@@ -193,6 +195,9 @@ func phoutOnce(res *vkit.Result, c phoutCase) {
 	if c.Buffer > 0 {
 		conf["buffer-size"] = fmt.Sprintf("%dB", c.Buffer)
 	}
+	if c.FlushTime != "" {
+		conf["flush-time"] = c.FlushTime
+	}
 	aggr, err := realAggregator(conf)
 	if err != nil {
 		res.Inconclusive(true, "phout config rejected: %v", err)
@@ -205,7 +210,16 @@ func phoutOnce(res *vkit.Result, c phoutCase) {
 	ctx, cancel := context.WithCancel(context.Background())
 	defer cancel()
 	runErr := make(chan error, 1)
-	start := func() { go func() { runErr <- aggr.Run(ctx, core.AggregatorDeps{Log: vkit.NopLog()}) }() }
+	start := func() {
+		go func() {
+			defer func() {
+				if r := recover(); r != nil {
+					runErr <- fmt.Errorf("Run panicked: %v", r)
+				}
+			}()
+			runErr <- aggr.Run(ctx, core.AggregatorDeps{Log: vkit.NopLog()})
+		}()
+	}
 	if !c.LateRun {
 		start()
 	}
@@ -242,7 +256,15 @@ func phoutOnce(res *vkit.Result, c phoutCase) {
 		wg.Wait()
 		start()
 	} else {
-		wg.Wait()
+		reported := make(chan struct{})
+		go func() { wg.Wait(); close(reported) }()
+		select {
+		case <-reported:
+		case e := <-runErr:
+			// the aggregator gave up while its pool was still reporting and nobody had cancelled it
+			res.Violate("C06/phout/run-ended-early", fmt.Sprintf("phout Run ended (%v) while samples were still being reported and its context had not been cancelled", e), c)
+			return
+		}
 	}
 	// every Report has returned: the pool "finishes" now
 	cancelDelay(c.CancelUs)
@@ -1160,6 +1182,11 @@ func main() {
 	phoutOnce(res, phoutCase{G: 4, K: 50, Queue: 8, WithID: true, CancelUs: 0, Seed: 11})
 	phoutOnce(res, phoutCase{G: 1, K: 1, Queue: 1, WithID: false, CancelUs: 0, Seed: 12})
 	phoutOnce(res, phoutCase{G: 8, K: 20, Queue: 256, WithID: true, CancelUs: 0, LateRun: true, Seed: 13})
+	// phout's flush-time option in every spelling a config can hold: whatever it says, every report is a line
+	for i, ft := range []string{"1s", "10ms", "1us", "0", "0s", "-1s", "1h"} {
+		phoutOnce(res, phoutCase{G: 4, K: 100, Queue: 16, WithID: true, CancelUs: 0, FlushTime: ft, Seed: int64(60 + i)})
+		phoutOnce(res, phoutCase{G: 2, K: 30, Queue: 256, WithID: i%2 == 0, CancelUs: 500, LateRun: i%2 == 1, FlushTime: ft, Seed: int64(70 + i)})
+	}
 	for i, n := 0, vkit.N(120, 2500); i < n; i++ {
 		c := phoutCase{G: 1 + rng.Intn(16), K: 1 + rng.Intn(120), Queue: []int{1, 2, 7, 64, 1024, 4096}[rng.Intn(6)], WithID: rng.Intn(2) == 0,
 			Buffer: []int{0, 0, 64, 4096}[rng.Intn(4)], CancelUs: cancelUs[rng.Intn(len(cancelUs))], LateRun: rng.Intn(6) == 0, Seed: rng.Int63()}
